@@ -101,6 +101,13 @@ def own_code_objects() -> List[Any]:
     return out
 
 
+def code_key(c: Any) -> List[Any]:
+    return [os.path.basename(c.co_filename), c.co_name, c.co_firstlineno]
+
+
+FOCUS_FILES = ("parser.py", "blueprints.py", "database.py")
+
+
 def call_parse(text: str, ap: bool, rend: str) -> Any:
     st = _state
     kw: Dict[str, Any] = {"allow_properties": ap}
@@ -109,10 +116,20 @@ def call_parse(text: str, ap: bool, rend: str) -> Any:
     return st["PyDBML"](text, **kw)
 
 
-def content_digest(db: Any) -> Tuple[str, Dict[str, Any]]:
+def content_digest(db: Any, with_render: bool = True) -> Tuple[str, Dict[str, Any]]:
+    """Digest of the identity-aware snapshot plus, for databases configured with the default renderers, of
+    their DBML and SQL text (what a caller obtains from a parse includes how it renders)."""
+    import hashlib
     snap = snapshot(db)
-    snap.pop("sql_renderer", None)
-    snap.pop("dbml_renderer", None)
+    sq = snap.pop("sql_renderer", None)
+    dq = snap.pop("dbml_renderer", None)
+    for lang, qn in (("dbml", dq), ("sql", sq)):
+        if with_render and qn is not None and qn.startswith("pydbml.renderer."):
+            try:
+                text = getattr(db, lang)
+                snap["_" + lang] = hashlib.sha256(text.encode("utf8", "surrogatepass")).hexdigest()[:16]
+            except Exception as ex:
+                snap["_" + lang] = ["exc", type(ex).__name__]
     return snap_digest(snap), snap
 
 
@@ -125,7 +142,7 @@ def outcome_of(text: str, ap: bool) -> List[str]:
         return ["exc", type(e).__name__]
     if type(db).__name__ != "Database":
         return ["other", type(db).__name__]
-    return ["db", content_digest(db)[0]]
+    return ["db", content_digest(db, False)[0], content_digest(db, True)[0]]
 
 
 # ---------------------------------------------------------------------- pristine + calibration
@@ -291,7 +308,14 @@ def gen_workload(rseed: int, tier: str) -> Dict[str, Any]:
             src = pool if g.random() < 0.5 else (valid_s + invalid_s)
             warm.append([g.choice(src), g.random() < 0.5])
     used = sorted({op[1] for ops in threads for op in ops if op[0] == "parse"} | {w[0] for w in warm})
-    opcodes = nthreads > 1 and g.random() < 0.3
+    opcodes: Any = nthreads > 1 and g.random() < float(os.environ.get("VERIF_E1_OPCODE_SHARE", "0.3"))
+    if opcodes and g.random() < 0.5:
+        # focus mode: instruction-level pre-emption inside ONE function of PyDBML's parser / builder code,
+        # with PCT change points counted over the instructions executed in that function only
+        keys = sorted(code_key(c) for c in own_code_objects() if os.path.basename(c.co_filename) in FOCUS_FILES)
+        hot = [k for k in keys if k[1] in ("build_database", "parse_blueprint", "locate_table", "parse", "_set_syntax",
+                                          "build", "get_reference_blueprints", "add", "add_table", "add_reference")]
+        opcodes = g.choice(hot if hot and g.random() < 0.7 else keys)
     return {"threads": threads, "warm": warm, "opcodes": opcodes,
             "docs": {str(i): docs[i]["text"] for i in used},
             "doc_names": {str(i): docs[i]["name"] for i in used},
@@ -316,6 +340,9 @@ def gen_policy(rseed: int, wl: Dict[str, Any]) -> S.Policy:
     mode = g.choice(["pct-own", "pct-own", "pct-own", "pct-dep", "bernoulli", "bernoulli", "quantum", "region"])
     if len(wl["threads"]) == 1:
         return S.Policy()
+    if isinstance(wl.get("opcodes"), list):
+        hz = int(math.exp(g.uniform(math.log(4), math.log(3000))))
+        return S.PCT(g, "focus", g.choice([1, 1, 2]), [hz] * len(wl["threads"]))
     if mode == "pct-own":
         return S.PCT(g, "own", g.choice([1, 2, 3]), hor_own)
     if mode == "pct-dep":
@@ -371,13 +398,14 @@ def execute(wl: Dict[str, Any], policy: S.Policy, step_cap: int = 20_000_000) ->
         if type(res).__name__ != "Database":
             viol("content", "content:not-a-database", {"where": where, "doc": name, "got": type(res).__name__})
             return None
-        dig, snap = content_digest(res)
+        full = rend == "default"
+        dig, snap = content_digest(res, full)
         if want[0] != "db":
             viol("content", "content:invalid-doc-returned-db", {"where": where, "doc": name, "pristine": want})
             return dig
-        if dig != want[1]:
+        if dig != want[2 if full else 1]:
             viol("content", "content:differs-from-pristine",
-                 {"where": where, "doc": name, "allow_properties": ap, "want": want[1], "got": dig,
+                 {"where": where, "doc": name, "allow_properties": ap, "want": want[2 if full else 1], "got": dig,
                   "got_summary": summary(snap)})
         if rend == "tagged":
             tq = tuple(st["renderers"]["tagged"])
@@ -405,7 +433,7 @@ def execute(wl: Dict[str, Any], policy: S.Policy, step_cap: int = 20_000_000) ->
         for (tt, slot), ent in list(live.items()):
             if tt != t or ent.get("flagged"):
                 continue
-            d = content_digest(ent["db"])[0]
+            d = content_digest(ent["db"], ent["full"])[0]
             if d != ent["expected"]:
                 ent["flagged"] = True
                 viol("isolation", "isolation:result-changed-without-own-edit",
@@ -440,7 +468,7 @@ def execute(wl: Dict[str, Any], policy: S.Policy, step_cap: int = 20_000_000) ->
                     if exc is not None:
                         exc.__traceback__ = None
                     if dig is not None:
-                        live[(t, len(slots))] = {"db": res, "expected": dig, "doc": doc}
+                        live[(t, len(slots))] = {"db": res, "expected": dig, "doc": doc, "full": rend == "default"}
                         try:
                             weak.append((where + ":db", weakref.ref(res)))
                             for tb in res.tables:
@@ -466,7 +494,7 @@ def execute(wl: Dict[str, Any], policy: S.Policy, step_cap: int = 20_000_000) ->
                             count("fault:edit:" + op[2])
                     except Exception as ex:
                         count("edit-raised:" + type(ex).__name__)
-                    ent["expected"] = content_digest(ent["db"])[0]
+                    ent["expected"] = content_digest(ent["db"], ent["full"])[0]
                     ent["edited"] = True
                     if sc.in_parse >= 1:
                         count("fault:edit-while-other-thread-parses")
@@ -490,7 +518,10 @@ def execute(wl: Dict[str, Any], policy: S.Policy, step_cap: int = 20_000_000) ->
 
     sc = S.Scheduler(policy, st["own_root"], st["dep_root"], step_cap=step_cap)
     if wl.get("opcodes"):
-        sc.enable_opcodes(own_code_objects())
+        codes = own_code_objects()
+        if isinstance(wl["opcodes"], list):   # focus mode: instruction events in one function only
+            codes = [c for c in codes if code_key(c) == wl["opcodes"]]
+        sc.enable_opcodes(codes)
     sc.parses_finished = 0
     sc.cold_overlap = False
     S.set_active(sc)
@@ -500,6 +531,8 @@ def execute(wl: Dict[str, Any], policy: S.Policy, step_cap: int = 20_000_000) ->
     except RuntimeError as ex:
         harness = str(ex)
     S.set_active(None)
+    if sc.broken:
+        harness = "scheduler invariant broken: " + sc.broken
     for t in sc.threads:
         if t.error is not None:
             if isinstance(t.error, SystemExit) and str(t.error) == "stepcap":
@@ -515,7 +548,7 @@ def execute(wl: Dict[str, Any], policy: S.Policy, step_cap: int = 20_000_000) ->
         for (t, slot), ent in live.items():
             if ent.get("flagged"):
                 continue
-            if content_digest(ent["db"])[0] != ent["expected"]:
+            if content_digest(ent["db"], ent["full"])[0] != ent["expected"]:
                 viol("isolation", "isolation:result-changed-without-own-edit",
                      {"where": "quiescent", "result": [t, slot], "doc": ent["doc"]})
         seen: Dict[int, Tuple[Tuple[int, int], str]] = {}
@@ -593,7 +626,8 @@ def tb_frames(exc: BaseException) -> List[str]:
 def summary(snap: Dict[str, Any]) -> Dict[str, Any]:
     return {"tables": [[t["schema"][1], t["name"][1], len(t["columns"])] for t in snap["tables"]],
             "refs": len(snap["refs"]), "enums": len(snap["enums"]), "groups": len(snap["table_groups"]),
-            "notes": len(snap["sticky_notes"]), "project": None if snap["project"] is None else snap["project"]["name"]}
+            "notes": len(snap["sticky_notes"]), "project": None if snap["project"] is None else snap["project"]["name"],
+            "dbml_text_digest": snap.get("_dbml"), "sql_text_digest": snap.get("_sql")}
 
 
 # ---------------------------------------------------------------------- driver
@@ -662,6 +696,8 @@ class E1Driver:
             counters["fault:cold-start-concurrency"] = 1
         if res.get("opcodes"):
             counters["fault:opcode-level-pre-emption-run"] = 1
+        if isinstance(wl.get("opcodes"), list):
+            counters["fault:opcode-focus-run"] = 1
         aps = {op[2] for ops in wl["threads"] for op in ops if op[0] == "parse"}
         if len(aps) == 2 and len(wl["threads"]) > 1:
             counters["fault:option-mix"] = 1
